@@ -1,4 +1,4 @@
-CONSTANTS G = {1, 2, 3}  NE = 6  K = 10000  Drain = TRUE
+CONSTANTS G = {1, 2, 3}  NE = 45  K = @K@  Drain = TRUE
 SPECIFICATION TraceSpec
 INVARIANTS TypeOK OnceEach OrderPerGoroutine FlushComplete
 CONSTRAINT HighWater
